@@ -525,7 +525,13 @@ class Gen:
     r = self.pick("row", avail)
     rows_used.append(r)
     self.all_rows.append(r)
-    self.ctrl(w_pac(r, **PAC_MENU[self.pick("pac", lim["pacs"])]))
+    pac_word = w_pac(r, **PAC_MENU[self.pick("pac", lim["pacs"])])
+    if lim.get("ch2_twin") and self.flag("twin"):
+      # the channel-1 PAC sent once, directly followed by the same PAC for channel 2 and channel-2 text; channel 1
+      # resumes with its PAC repeated (a different word from the channel-2 one: not a doubled code)
+      self.words += [pac_word, pac_word | 0x0800, w_text("XX")]
+      self.tags.add("channel-2-twin-code")
+    self.ctrl(pac_word)
     to = self.pick("tab", lim["tabs"])
     if to:
       self.ctrl(w_tab([0, 1, 3][to]))
@@ -896,7 +902,7 @@ class SccHarness(Harness):
 class PopOnHarness(SccHarness):
   name = "c08_popon"
   required_witnesses = ("captions-compared", "tag:erased-by-EDM", "tag:replaced-by-EOC", "tag:replaced-by-empty-EOC", "tag:multi-line",
-                        "tag:flipped-memory-rows-kept")
+                        "tag:flipped-memory-rows-kept", "tag:channel-2-twin-code")
   bounds = {"quick": "1-3 SCC lines, the first at a symbolic start frame n0 in [0, 24h), each later one a symbolic gap of 0..3000 frames after the previous line's last word, x {NDF, DF} x parity {set, cleared}; pop-on grammar RCL ENM rows [nulls] EOC then {EOF | EDM | second caption + EOC [EDM] | empty "
                      "flip}, explored in 4 families: placement (6 rows x 6 PACs x tab 0/1/3), text items (1-2 of 10 after 2 PACs), "
                      "two-row captions (ordered pairs of 4 rows x 2 PACs x 3 items), varied second caption",
@@ -918,7 +924,7 @@ class PopOnHarness(SccHarness):
     if tier == "quick":
       # placement: every row x PAC x tab offset, one text item, every tail
       add(dict(rows_menu=FULL["rows_menu"], pacs=FULL["pacs"], tabs=FULL["tabs"], nulls=2, tails=[0, 1, 2, 3]), all4)
-      add(dict(rows_menu=[0, 2], pacs=[0, 3], tabs=[0, 1], nulls=2, tails=[1, 2, 3]), two[:1], ml=True)
+      add(dict(rows_menu=[0, 2], pacs=[0, 3], tabs=[0, 1], nulls=2, tails=[1, 2, 3], ch2_twin=1), two[:1], ml=True)
       # text items: 1-2 of the 10 items after a plain and an italics PAC
       add(dict(pacs=[0, 5], item_menu=FULL["item_menu"], items=2, tails=[0, 1]), two)
       # two rows: ordered pairs of 4 rows, 2 PACs, 3 items each
@@ -931,7 +937,7 @@ class PopOnHarness(SccHarness):
       aligns = [(0, 0, 0), (0, 1, 1), (1, 0, 2), (1, 1, 0)]
       add(dict(rows_menu=FULL["rows_menu"], pacs=FULL["pacs"], tabs=FULL["tabs"], item_menu=[0, 3, 6], nulls=2, tails=[0, 1, 2, 3],
                single_ok=1), all4)
-      add(dict(pacs=[0, 3, 5], tabs=[0, 2], item_menu=FULL["item_menu"], items=2, tails=[0, 1], ch2=1, edm_before_eoc=1), aligns)
+      add(dict(pacs=[0, 3, 5], tabs=[0, 2], item_menu=FULL["item_menu"], items=2, tails=[0, 1], ch2=1, edm_before_eoc=1, ch2_twin=1), aligns)
       add(dict(rows_menu=FULL["rows_menu"], pacs=[0, 3], item_menu=[0, 6, 7], rows=[2], tails=[0, 2], single_ok=1), aligns)
       add(dict(rows_menu=[0, 1, 2, 5], pacs=[0, 5], item_menu=[0, 7], rows=[3], tails=[0, 1]), aligns)
       add(dict(tails=[2], ch2=1, second=dict(rows_menu=FULL["rows_menu"], pacs=FULL["pacs"], tabs=[0, 1], item_menu=[0, 3, 5, 6],
